@@ -36,6 +36,7 @@ open MdIt.Inline
 #check @ruleAutolink_window
 #check @ruleEntity_window
 #check @ruleBackticks_window
+#check @runRule_flat_window
 #check @parseInlineTail_window
 #check @decOk_unescapeAll
 #check @silent_declines
@@ -80,6 +81,7 @@ open MdIt.Inline
 #print axioms ruleAutolink_window
 #print axioms ruleEntity_window
 #print axioms ruleBackticks_window
+#print axioms runRule_flat_window
 #print axioms parseInlineTail_window
 #print axioms decOk_unescapeAll
 #print axioms silent_declines
